@@ -36,18 +36,23 @@ KW = re.compile(r'[^\d\W]\w*')
 
 
 class ROut:
-    __slots__ = ('c', 'fp', 'val')
+    """c: condition; fp: fingerprint term; val: semantic items (concrete mode);
+    ne: some non-empty token was matched (an assignment whose right-hand side
+    matched only the empty string records nothing — the documentation is
+    silent, the observed behaviour is kept)"""
+    __slots__ = ('c', 'fp', 'val', 'ne')
 
-    def __init__(self, c, fp=0, val=()):
-        self.c, self.fp, self.val = c, fp, val
+    def __init__(self, c, fp=0, val=(), ne=False):
+        self.c, self.fp, self.val, self.ne = c, fp, val, ne
 
 
 def rseq(a, b):
-    return ROut(And(a.c, b.c), Add(a.fp, b.fp), a.val + b.val)
+    return ROut(And(a.c, b.c), Add(a.fp, b.fp), a.val + b.val, Or(a.ne, b.ne))
 
 
 def rmerge(a, b):
-    return ROut(Or(a.c, b.c), Ite(a.c, a.fp, b.fp), a.val if a.c is True else b.val)
+    return ROut(Or(a.c, b.c), Ite(a.c, a.fp, b.fp), a.val if a.c is True else b.val,
+                Ite(a.c, a.ne, b.ne))
 
 
 class Obj(dict):
@@ -202,7 +207,7 @@ class RefPeg:
                 val = ()
                 if self.concrete and cc is True:
                     val = mkval(p, end)
-                self.add(out, end, ROut(cc, 0, val))
+                self.add(out, end, ROut(cc, 0, val, end > p))
         return out
 
     def text(self, a, b):
@@ -269,7 +274,7 @@ class RefPeg:
             for x in e[1]:
                 res = self.ev(x, pos, st, inc)
                 for end, o in res.items():
-                    self.add(out, end, ROut(And(none_before, o.c), o.fp, o.val))
+                    self.add(out, end, ROut(And(none_before, o.c), o.fp, o.val, o.ne))
                 none_before = And(none_before, Not(self.succ(res)))
                 if none_before is False:
                     break
@@ -292,7 +297,7 @@ class RefPeg:
             return out
         if k == 'sup':
             for end, o in self.ev(e[1], pos, st, inc).items():
-                self.add(out, end, ROut(o.c))
+                self.add(out, end, ROut(o.c, 0, (), o.ne))
             return out
         if k == 'ref':
             return self._ref(e[1], pos, st, inc)
@@ -324,10 +329,10 @@ class RefPeg:
                         if end == mp:
                             noelem = Or(noelem, d.c)
                             continue
-                        self.add(nxt, end, rseq(ROut(And(o0.c, mc), o0.fp, o0.val), d))
+                        self.add(nxt, end, rseq(ROut(And(o0.c, mc), o0.fp, o0.val, o0.ne), d))
                     stop = Or(stop, And(mc, noelem))
                 if not (plus and it == 0):
-                    self.add(out, p, ROut(And(o0.c, stop), o0.fp, o0.val))
+                    self.add(out, p, ROut(And(o0.c, stop), o0.fp, o0.val, o0.ne))
             cur = nxt
             it += 1
             if it > self.n + 2:
@@ -369,7 +374,7 @@ class RefPeg:
                                 continue
                             prog = Or(prog, d.c)
                             self.add(nxt, (tuple(i for i in rem if i != idx), False, end),
-                                     rseq(ROut(none_before, o.fp, o.val), d))
+                                     rseq(ROut(none_before, o.fp, o.val, o.ne), d))
                         none_before = And(none_before, Not(prog))
                         if none_before is False:
                             break
@@ -380,7 +385,7 @@ class RefPeg:
                     for idx in rem:
                         res = self.ev(elems[idx], p0, st, inc)
                         ok = And(ok, res[p0].c if p0 in res else False)
-                    self.add(out, p0, ROut(ok, o.fp, o.val))
+                    self.add(out, p0, ROut(ok, o.fp, o.val, o.ne))
             states = nxt
         return out
 
@@ -406,7 +411,7 @@ class RefPeg:
             for alt in gram.BASE_ALT[name]:
                 res = self._ref(alt, pos, st, inc)
                 for end, o in res.items():
-                    self.add(out, end, ROut(And(none_before, o.c), o.fp, o.val))
+                    self.add(out, end, ROut(And(none_before, o.c), o.fp, o.val, o.ne))
                 none_before = And(none_before, Not(self.succ(res)))
             return out
         if name not in self.rules:
@@ -420,7 +425,7 @@ class RefPeg:
                 fp = Add(fp, self.fpindex.w(('obj', name)))
             if self.concrete and o.c is True:
                 val = self._close(name, kind, o.val, pos, end)
-            self.add(out, end, ROut(o.c, fp, val))
+            self.add(out, end, ROut(o.c, fp, val, o.ne))
         return out
 
     def _close(self, name, kind, items, pos, end):
@@ -488,8 +493,8 @@ class RefPeg:
                 # an assignment records a value when its right-hand side matched
                 # something (an empty match leaves the attribute untouched)
                 if w:
-                    fp = Add(fp, w)
-                self.add(out, end, ROut(o.c, fp, val))
+                    fp = Add(fp, Ite(o.ne, w, 0))
+                self.add(out, end, ROut(o.c, fp, val, o.ne))
             if op == '?=':
                 self.add(out, pos, ROut(Not(self.succ(res))))
             return out
@@ -518,14 +523,14 @@ class RefPeg:
                         if self.concrete and o0.c is True and mc is True and d.c is True:
                             v, span = self._value_of(rhs, d.val)
                             val = o0.val + ((v, span),)
-                        self.add(nxt, end, ROut(And(o0.c, mc, d.c), Add(Add(o0.fp, d.fp), w), val))
+                        self.add(nxt, end, ROut(And(o0.c, mc, d.c), Add(Add(o0.fp, d.fp), w), val, True))
                     stop = Or(stop, And(mc, noelem))
                 if not (op == '+=' and it == 0):
                     val = ()
                     if self.concrete and o0.val:
                         val = (('asg', attr, op, [v for v, _ in o0.val], o0.val[0][1][0],
                                 o0.val[-1][1][1]),)
-                    self.add(out, p, ROut(And(o0.c, stop), o0.fp, val))
+                    self.add(out, p, ROut(And(o0.c, stop), o0.fp, val, o0.ne))
             cur = nxt
             it += 1
             if it > self.n + 2:
@@ -551,7 +556,7 @@ class RefPeg:
         for end, o in res.items():
             for p, c in self.skip(end, self.st0, False).items():
                 if p == self.n:
-                    self.add(out, p, ROut(And(o.c, c), o.fp, o.val))
+                    self.add(out, p, ROut(And(o.c, c), o.fp, o.val, o.ne))
         return out
 
     def accept_fp(self):
